@@ -218,6 +218,12 @@ LongSet ==
 
 \* ------------------------------------------- session / connection lifecycles (C18)
 \* one connection; operations chosen pseudo-randomly among those legal in the current state
+\* connection-level operations through the library's own DialV2 (no hook): an unusable address (open attempt + failure),
+\* a loopback address (attempt, gauge up) and the matching close (gauge down)
+DialOps(k, i) == CASE Rnd(k, i + 500) % 7 = 0 -> << [k |-> "call", api |-> "DialV2", label |-> "dialfail", args |-> [addr |-> "127.0.0.1:99999"]] >>
+                   [] Rnd(k, i + 500) % 7 = 1 -> << [k |-> "call", api |-> "DialV2", label |-> "dial", args |-> [addr |-> "127.0.0.1:9"]],
+                                                    [k |-> "call", api |-> "ExtraClose", label |-> "extraclose"] >>
+                   [] OTHER -> <<>>
 OpAt(k, i, open) == LET r == Rnd(k, i) % 6 IN
   IF ~open THEN (CASE r \in {0, 1, 4} -> "openOK" [] r \in {2, 5} -> "openFailPw" [] OTHER -> "openFailStatus")
   ELSE (CASE r \in {0, 1} -> "cmd" [] r = 2 -> "cmdLost" [] r = 3 -> "closeOK" [] r = 4 -> "closeErr" [] OTHER -> "closeLost")
@@ -242,7 +248,7 @@ Life(S, k, i, n, open, j) ==
            nowOpen == IF op = "openOK" THEN TRUE ELSE IF op \in {"closeOK", "closeErr", "closeLost"} THEN FALSE ELSE open
            \* sequence numbers expected by TraceHandshake restart with each session
            j2 == IF op = "openOK" THEN 1 ELSE IF op \in {"cmd", "cmdLost", "closeOK", "closeErr", "closeLost"} THEN j + 1 ELSE j
-       IN OpSteps(S, op, j) \o Life(S, k, i + 1, n, nowOpen, j2)
+       IN DialOps(k, i) \o OpSteps(S, op, j) \o Life(S, k, i + 1, n, nowOpen, j2)
 LifecycleSet ==
   LET n == IF Full THEN 60 ELSE 24
       cnt == IF Full THEN 120 ELSE 32
